@@ -78,6 +78,12 @@ pub struct Case {
     /// while the shell reads its input
     #[serde(default)]
     pub trap: bool,
+    /// the shell reading its standard input is interactive (`-i`): prompts go
+    /// to stderr (not compared), the commands executed and the input offsets
+    /// are the same. Only for scripts without a planted syntax error (an
+    /// interactive shell goes on after one).
+    #[serde(default)]
+    pub interactive: bool,
 }
 
 struct Gen<'a> {
@@ -622,6 +628,7 @@ pub fn generate(rng: &mut Rng, tier: Tier) -> Case {
         units.push(g.unit());
     }
     // optional ending
+    let mut error_interactive = false;
     match g.rng.below(10) {
         0 | 1 => {
             // a consumer of the remaining input
@@ -692,12 +699,21 @@ pub fn generate(rng: &mut Rng, tier: Tier) -> Case {
             // plant a syntax error at a later line
             let p = g.rng.range(1, units.len() as u32) as usize;
             let mut rest = units.split_off(p);
-            units.push(error_unit(g.rng));
-            // what follows must never take effect
-            for u in &mut rest {
-                u.out.clear();
-                u.tells.clear();
-                u.status = None;
+            let eu = error_unit(g.rng);
+            // an interactive shell reports the error and goes on with the next
+            // line (not after an error that swallows the rest of the input or
+            // leaves an option behind that changes the syntax)
+            // (`for in do` is the start of a loop over a variable called `in`)
+            const ONE_LINE: [&str; 7] = ["fi", "done", ")", "}", "echo x | | echo y", "if rc 0; then echo x; done", "echo x; ;; echo y"];
+            error_interactive = g.rng.below(5) == 0 && eu.lines.len() == 1 && ONE_LINE.contains(&eu.lines[0].as_str());
+            units.push(eu);
+            if !error_interactive {
+                // what follows must never take effect
+                for u in &mut rest {
+                    u.out.clear();
+                    u.tells.clear();
+                    u.status = None;
+                }
             }
             units.extend(rest);
         }
@@ -711,6 +727,10 @@ pub fn generate(rng: &mut Rng, tier: Tier) -> Case {
             })
             // (keeps the expectation of what the verbose option echoes simple)
             && !units.iter().any(|u| u.verbose == Some(true));
+    // (also with a planted syntax error, unless it makes the parser read to the
+    // end of the input: an interactive shell reports the error and goes on
+    // with the next line)
+    let interactive = error_interactive || g.rng.below(5) == 0 && !units.iter().any(|u| u.error);
     Case {
         cut: None,
         eio: None,
@@ -718,6 +738,7 @@ pub fn generate(rng: &mut Rng, tier: Tier) -> Case {
         units,
         no_final_newline,
         trap,
+        interactive,
     }
 }
 
@@ -731,6 +752,7 @@ pub struct Expect {
     pub foreign: Vec<(u32, u64)>,
     pub reads_stdin: bool,
     pub has_error: bool,
+    pub interactive: bool,
     /// what the verbose option echoes to stderr when the script is read through
     /// a descriptor (None: the option is never switched on)
     pub echoed: Option<String>,
@@ -790,7 +812,8 @@ pub fn expect(c: &Case) -> Expect {
         if u.error {
             has_error = true;
         }
-        if u.exits {
+        let goes_on = c.interactive && u.error && !u.to_eof;
+        if u.exits && !goes_on {
             done = true;
         }
     }
@@ -809,6 +832,7 @@ pub fn expect(c: &Case) -> Expect {
         status,
         tells,
         foreign,
+        interactive: c.interactive,
         reads_stdin,
         has_error,
         echoed: any_verbose.then_some(echoed),
@@ -905,6 +929,7 @@ fn spec_of(exp: &Expect, variant: Variant) -> ScriptSpec {
         script: exp.script.clone(),
         dash_c: variant == Variant::DashC,
         as_file: variant == Variant::ScriptFile,
+        options: if exp.interactive && matches!(variant, Variant::FileStdin | Variant::PipeStdin) { vec!["-i".into()] } else { Vec::new() },
         files: vec![
             ("/work/g1.txt".into(), b"1".to_vec(), 0o644),
             ("/work/g2.txt".into(), b"2".to_vec(), 0o644),
@@ -1014,7 +1039,10 @@ fn check_run(exp: &Expect, variant: Variant, obs: &Observed) -> Option<Viol> {
         (Some(e), Variant::FileStdin | Variant::PipeStdin | Variant::ScriptFile) => e.as_str(),
         _ => "",
     };
-    let stderr_ok = if exp.has_error {
+    let stderr_ok = if exp.interactive && matches!(variant, Variant::FileStdin | Variant::PipeStdin) {
+        // (prompts)
+        true
+    } else if exp.has_error {
         obs.stderr.starts_with(echoed) && obs.stderr.len() > echoed.len()
     } else {
         obs.stderr == echoed
@@ -1139,6 +1167,14 @@ fn run_one(c: &Case, variant: Variant, cfg: &SimConfig, decider: Decider) -> (Ob
         let v = check_cut(&prefix, variant, &obs);
         return (obs, v);
     }
+    // (only a shell reading its standard input is made interactive)
+    let plain;
+    let c = if c.interactive && !matches!(variant, Variant::FileStdin | Variant::PipeStdin) {
+        plain = Case { interactive: false, ..c.clone() };
+        &plain
+    } else {
+        c
+    };
     let exp = expect(c);
     let spec = spec_of(&exp, variant);
     let script = exp.script.clone().into_bytes();
@@ -1212,7 +1248,7 @@ impl Prop for C18 {
         "exploration"
     }
     fn rule(&self) -> String {
-        "Seeded scripts mixing commands with data lines consumed by `read` from the same input, alias definitions and `set -f`/`+f` affecting only later lines, multi-line compound commands, function definitions, line continuations, here-documents, eval, subshells/pipelines, a final consumer of the remaining input (relay/cat/while-read, also as a pipeline stage), `exit` followed by lines that must never be read, and syntax errors planted at later lines. Each script is fed (i) as a regular file on fd 0, (ii) through a pipe written by a simulated feeder process in seeded chunk sizes (1 byte .. whole script, ending inside tokens, at and around newlines) with seeded sleeps, under seeded schedules with preemption at every read, (iii) as a -c string and (iv) as a command file when it does not read stdin. Oracles: stdout/status equal to the generator's expectation in every variant; at every `tell` probe the input offset (lseek for files; bytes read from fd 0 by the shell, from kernel events, for pipes) equals the end of the command's last line. Distinct non-trivial = distinct (script, variant, schedule hash, fault count) with >= 2 processes or a fired fault. Added: here-documents in every newline position of the grammar, lines longer than 4 KiB with multi-byte characters, and two fault configurations with a prefix oracle - the input ends after a seeded number of bytes (short file / feeder closes the pipe), or the input file's reads fail with EIO from a seeded read on. Also units with two redirections of descriptor 0 on one command (`read a <<E1 <<E2`): the command sees the last one, and afterwards the shell goes on reading its own input where it was.".into()
+        "Seeded scripts mixing commands with data lines consumed by `read` from the same input, alias definitions and `set -f`/`+f` affecting only later lines, multi-line compound commands, function definitions, line continuations, here-documents, eval, subshells/pipelines, a final consumer of the remaining input (relay/cat/while-read, also as a pipeline stage), `exit` followed by lines that must never be read, and syntax errors planted at later lines. Each script is fed (i) as a regular file on fd 0, (ii) through a pipe written by a simulated feeder process in seeded chunk sizes (1 byte .. whole script, ending inside tokens, at and around newlines) with seeded sleeps, under seeded schedules with preemption at every read, (iii) as a -c string and (iv) as a command file when it does not read stdin. Oracles: stdout/status equal to the generator's expectation in every variant; at every `tell` probe the input offset (lseek for files; bytes read from fd 0 by the shell, from kernel events, for pipes) equals the end of the command's last line. Distinct non-trivial = distinct (script, variant, schedule hash, fault count) with >= 2 processes or a fired fault. Added: here-documents in every newline position of the grammar, lines longer than 4 KiB with multi-byte characters, and two fault configurations with a prefix oracle - the input ends after a seeded number of bytes (short file / feeder closes the pipe), or the input file's reads fail with EIO from a seeded read on (also as a transient error of that one read, where only the shell's own reader reads the file). Also units with two redirections of descriptor 0 on one command (`read a <<E1 <<E2`): the command sees the last one, and afterwards the shell goes on reading its own input where it was. A fifth of the scripts are also fed to an interactive shell (`-i`, standard input variants; prompts on stderr are not compared): same commands, same offsets, and after a one-line syntax error the shell goes on with the next line.".into()
     }
     fn assumptions(&self) -> Vec<String> {
         vec![
@@ -1300,6 +1336,7 @@ impl Prop for C18 {
         if !case.trap && exp.script.len() > 2 && !replaces_input {
             for j in 0..cut_runs {
                 let mut cut = case.clone();
+                cut.interactive = false;
                 cut.cut = Some(rng.range(1, exp.script.len() as u32 - 1));
                 let variant = if j % 2 == 0 { Variant::PipeStdin } else { Variant::FileStdin };
                 let cfg = draw_config(&mut rng, 1 + j);
@@ -1327,6 +1364,7 @@ impl Prop for C18 {
             };
             for j in 0..eio_runs.min(reads) {
                 let mut e = case.clone();
+                e.interactive = false;
                 e.eio = Some(1 + rng.below(reads));
                 // (a transient error only where nothing but the shell's own
                 // reader reads the file: a command hit by it would just fail)
